@@ -400,6 +400,41 @@ def run_c19(prop, cfg, tier, seed):
     # history independence: what BuildParser emits must not depend on what the process built before
     rh = tool_check.run_tool("pvhist", seed, 40 if tier == "quick" else 400, [], pigeon=False, prop=prop)
     hist_fail = [f for f in (rh.get("failures") or [])]
+    # the output must not depend on the directory the tool is run in (other .go files there): witness of finding D28
+    d28 = [f for f in findings.load()["findings"] if f.get("witness", {}).get("kind") == "cwd-siblings" and prop in f["properties"]]
+    cwd_known = []
+    wdc = os.path.join(core.BUILD, "work", "C19_cwd")
+    shutil.rmtree(wdc, ignore_errors=True)
+    for f in d28:
+        w = f["witness"]
+        outs = []
+        for tag in ("a", "b"):
+            d = os.path.join(wdc, f["id"], tag)
+            os.makedirs(d, exist_ok=True)
+            open(os.path.join(d, "sib.go"), "w").write(w["sibling_" + tag])
+            open(os.path.join(d, "g.peg"), "w").write(w["grammar"])
+            q = subprocess.run([pig, "g.peg"], cwd=d, stdin=subprocess.DEVNULL, stdout=subprocess.PIPE, stderr=subprocess.PIPE, timeout=120)
+            outs.append((q.returncode, q.stdout))
+        if outs[0] != outs[1] and f.get("status") == "known":
+            cwd_known.append("KNOWN-FINDING: property=%s %s %s" % (prop, f["id"], f["what"]))
+    # ... and, for the generated grammars, on nothing else in the directory: an empty directory and one with unrelated
+    # sibling files give the same bytes
+    cwd_viol = []
+    sib_dir = os.path.join(wdc, "sib")
+    os.makedirs(sib_dir, exist_ok=True)
+    open(os.path.join(sib_dir, "other.go"), "w").write("package main\n\nimport \"os\"\n\nvar _ = os.Args\n")
+    open(os.path.join(sib_dir, "notes.txt"), "w").write("x\n")
+    empty_dir = os.path.join(wdc, "empty")
+    os.makedirs(empty_dir, exist_ok=True)
+    for f in files[:12]:
+        a = subprocess.run([pig, os.path.join(emit, f)], cwd=empty_dir, stdin=subprocess.DEVNULL, stdout=subprocess.PIPE, stderr=subprocess.PIPE, timeout=120)
+        b = subprocess.run([pig, os.path.join(emit, f)], cwd=sib_dir, stdin=subprocess.DEVNULL, stdout=subprocess.PIPE, stderr=subprocess.PIPE, timeout=120)
+        tool_runs += 2
+        if (a.returncode, a.stdout) != (b.returncode, b.stdout):
+            keep = os.path.join(core.VERIF, "replays", prop)
+            os.makedirs(keep, exist_ok=True)
+            shutil.copyfile(os.path.join(emit, f), os.path.join(keep, f))
+            cwd_viol.append(os.path.join(keep, f))
     printed = []
     nviol = 0
 
@@ -426,6 +461,9 @@ def run_c19(prop, cfg, tier, seed):
         f = tool_check.keep_failure_file(prop, dict(f))
         rep("nondeterminism", {"why": "ast.Optimize gives different results on identical copies of one grammar: " + str(f.get("detail"))[:600], "file": f.get("file"),
                                "replay_cmd": "/verif/build/bin/pvopt -seed %d -n %d -det 30" % (seed, nopt)}, True)
+    for g in cwd_viol:
+        rep("nondeterminism", {"grammar": g, "why": "pigeon writes different bytes for this grammar when it is run in an empty directory and in a directory that holds an unrelated .go file and a text file",
+                               "replay_cmd": "mkdir -p /tmp/e /tmp/s && printf 'package main\\nimport \"os\"\\nvar _ = os.Args\\n' > /tmp/s/other.go && (cd /tmp/e && /verif/build/bin/pigeon %s | sha256sum) && (cd /tmp/s && /verif/build/bin/pigeon %s | sha256sum)" % (g, g)}, True)
     for g, flags, n in tool_viol:
         rep("nondeterminism", {"grammar": g, "flags": flags, "why": "%d different outputs of pigeon for the same grammar and flags" % n,
                                "replay_cmd": "for i in 1 2 3 4 5 6; do /verif/build/bin/pigeon %s %s | sha256sum; done" % (" ".join(flags), g)}, True)
@@ -443,7 +481,7 @@ def run_c19(prop, cfg, tier, seed):
            "explanation": "determinism is decided by repeated execution under Go's randomised map order plus a kernel-checked proof that the (repaired) analysis visits rules in an order that does not depend on the map order"}
     core.write_evidence(prop, tier, seed, cfg.get("level", "proof"), cov,
                         ["byte-identity of the emitted file beyond the analysis (emission order = grammar order) is checked by execution only"], wall, nviol)
-    for l in printed:
+    for l in cwd_known + printed:
         print(l)
-    log("%s: %d grammars x %d builds, %d tool runs, %d violations, %d disagreements, lean_ok=%s %.1fs" % (prop, len(gl), k, tool_runs, len(viol) + len(tool_viol) + len(opt_nd) + len(hist_fail), len(disagree), lean_ok, wall))
+    log("%s: %d grammars x %d builds, %d tool runs, %d violations, %d disagreements, lean_ok=%s %.1fs" % (prop, len(gl), k, tool_runs, len(viol) + len(tool_viol) + len(opt_nd) + len(hist_fail) + len(cwd_viol), len(disagree), lean_ok, wall))
     return 1 if nviol else 0
